@@ -2,7 +2,7 @@
 from ._stream import make
 
 PROPERTY = 'C06'
-TIERS = {'quick': {'runs': 16000, 'group': 250}, 'thorough': {'runs': 400000, 'group': 1000}}
+TIERS = {'quick': {'runs': 16000, 'group': 250}, 'thorough': {'runs': 400000, 'group': 500}}
 RULE = ('Each run is one of: doc (grammar document, a chunking, an input form and 0-3 reader faults EOF/LOSS/DUP/SWAP/'
         'FLIP/JUNK, half placed at in-flight sites), deep (nesting to depth 40, env/command alternation, nested math and '
         'bracket arguments, half truncated), alphabet (0-6 symbols over the token-kind alphabet incl. one representative '
